@@ -30,7 +30,14 @@ func (w *cluWorld) execLambda(ctx context.Context, op cluOp) (out opOutcome) {
 	}
 	w.setFlag(w.apps, op.App+"/"+op.Entry, true)
 	in := make(chan []byte)
-	close(in)
+	// a client may close its input at once, or leave it open for as long as it reads output
+	leaveOpen := op.Stdin && op.Force
+	if leaveOpen {
+		w.probe("lambda_stdin_left_open")
+		defer close(in)
+	} else {
+		close(in)
+	}
 	errFired0 := w.sim.Stats.ErrFired
 	ids, ch, err := w.core.cal.RunAndWait(ctx, opts, in)
 	if err != nil {
@@ -39,9 +46,24 @@ func (w *cluWorld) execLambda(ctx context.Context, op cluOp) (out opOutcome) {
 	}
 	last := map[string]*coretypes.AttachWorkloadMessage{}
 	n := 0
-	for m := range ch {
-		n++
-		last[m.WorkloadID] = m
+	// "the output stream always closes": bounded in virtual time (nothing in a run-and-wait
+	// of the simulated engines takes longer than the global timeout)
+	watchdog := time.NewTimer(30 * time.Minute)
+	defer watchdog.Stop()
+drain:
+	for {
+		select {
+		case m, ok := <-ch:
+			if !ok {
+				break drain
+			}
+			n++
+			last[m.WorkloadID] = m
+		case <-watchdog.C:
+			w.viol("C30", "stream-never-closes", "lambda", fmt.Sprintf("the output stream of a run-and-wait (stdin=%v, input left open=%v) was still open after 30 minutes of virtual time; %d messages so far", op.Stdin, leaveOpen, n))
+			out.err, out.failed = fmt.Errorf("stream never closed"), true
+			return
+		}
 	}
 	out.closed = true
 	out.nMsgs = n
